@@ -70,6 +70,16 @@ claim("C18", "static: P-ORD decision tables for comparator / Find / Insert / vis
       "what concurrent readers observe under all interleavings; memory-model reasoning beyond 'atomic links, initialised before publication'.",
       "DESIGN.md §2 C18")
 
+claim("C07", "static: inter-procedural must-held lockset analysis with a frozen guarded-by table (inferred by counting, confirmed by reading), atomic-consistency table, receiver-relative re-entrancy check, acquired-while-held lock graph (cycle detection)",
+      "every access to a field of the guard table outside constructor-only code and Close holds its guard (exclusively for writes, content writes of maps/slices included); fields accessed atomically are accessed atomically everywhere; no method re-acquires a lock of its own receiver through a call on the same receiver; the lock graph over in-scope locks is acyclic. Replication code is reported as info only.",
+      "data races in general (needs a happens-before detector over executions), panics, goroutine leaks, Close concurrent with other calls.",
+      "DESIGN.md §2 C07")
+
+claim("C15", "static: lockset + call-graph reachability of blocking gRPC stream operations under the write-path locks; lock-order cycles closed by goroutines off the write path (per-site obligations); structural dead-session rules",
+      "no blocking stream operation is reachable while WAL.mu/Manager.mu is held; no goroutine off the write path takes write-path locks in an order that closes a cycle with the write path's order; observer callbacks return nothing; the heartbeat's timeout arm and failed sends mark sessions disconnected and every marked session is unregistered; GetReplicaInfo reports only connected sessions; session ids are fresh per stream; no blocking send under a session lock in the monitor loop. The pinned tree violates the first, second and last rule at 9 listed sites (open known findings: repair needs a per-session queue).",
+      "latencies, time bounds, 'eventually', TCP-level stalls.",
+      "DESIGN.md §2 C15")
+
 NOT_APPLICABLE_PENDING = "rules for this property are not built yet (work in progress, see DESIGN.md §2); nothing is claimed until the check exists"
 
 def main():
